@@ -45,6 +45,9 @@ def make_handler(name):
                     out.append({"continues": True, "parameters": {"i": i}})
                 return out + [{"parameters": {"i": 3}}]
             return [{"parameters": {"echo": p, "svc": name}}]
+        if m == name + ".Flood":
+            # far more than a pipe holds (64 KiB): the bridge ends up blocked in a write
+            return [{"continues": True, "parameters": {"i": i, "pad": "z" * 4000}} for i in range(100)] + [{"parameters": {"i": 100}}]
         if m == name + ".Bye":
             # reply, then hang up right behind it
             return [{"parameters": {"echo": "y" * int((p or {}).get("n", 0)), "svc": name}}, "close"]
@@ -317,7 +320,7 @@ def main(tier, replay):
             if mode == "activate":
                 continue
             for i in range(6 if tier == "quick" else 100):
-                vanish_case(ctx, mode, cmd, "org.example.a", [50, 300, 800][i % 3], i % 2 == 1)
+                vanish_case(ctx, mode, cmd, "org.example.a", [50, 300, 800][i % 3], i % 2 == 1 or i % 3 == 2)
         if std.poll() is not None:
             ctx.inconc({"standard service died": std.returncode})
         return ctx.finish(60 if tier == "quick" else 3000)
@@ -521,9 +524,14 @@ def vanish_case(ctx, mode, cmd, name, ms, more):
     req = {"method": name + ".Slow", "parameters": {"ms": ms}}
     if more:
         req["more"] = True
+    flood = ms == 800 and more
+    if flood:
+        # the service streams 400 KB, the client reads nothing: the bridge is blocked writing to
+        # the client when the client goes away
+        req = {"method": name + ".Flood", "parameters": {}, "more": True}
     b = Bridge(cmd)
     b.write(json.dumps(req).encode() + b"\0")
-    time.sleep(0.02)
+    time.sleep(0.5 if flood else 0.02)
     rc = b.vanish_and_wait()
     ctx.case((mode, "client-vanishes", ms, more))
     ctx.count("client_vanishes_sessions")
